@@ -193,6 +193,11 @@ func (s *shaper) Shape(v ssa.Value) ([]Atom, error) {
 		if com.IsInvoke() {
 			return []Atom{{Kind: AtomCall, Text: com.Method.Name(), Arg: descValue(com.Value), Val: com.Value, Call: x}}, nil
 		}
+		if sc := com.StaticCallee(); sc != nil && sc.String() == "fmt.Sprintf" && len(com.Args) == 2 {
+			if as, ok := s.sprintfShape(com.Args[0], com.Args[1]); ok {
+				return as, nil
+			}
+		}
 		if sc := com.StaticCallee(); sc != nil && s.p.isFirstParty(sc) && len(sc.Blocks) == 1 && sc.Signature.Recv() == nil && len(com.Args) == len(sc.Params) {
 			// straight-line first-party helper returning a string: inline its shape with the
 			// parameters bound to the caller's arguments
@@ -396,4 +401,62 @@ func (s *shaper) substitute(atoms []Atom, bind map[ssa.Value]ssa.Value) ([]Atom,
 		}
 	}
 	return out, true
+}
+
+// sprintfShape: fmt.Sprintf with a constant format and a literal argument list.
+func (s *shaper) sprintfShape(format ssa.Value, args ssa.Value) ([]Atom, bool) {
+	fc, ok := format.(*ssa.Const)
+	if !ok || fc.Value == nil || fc.Value.Kind() != constant.String {
+		return nil, false
+	}
+	elems, ok := varargElems(args)
+	if !ok {
+		return nil, false
+	}
+	f := constant.StringVal(fc.Value)
+	var out []Atom
+	ai := 0
+	lit := ""
+	for i := 0; i < len(f); i++ {
+		if f[i] != '%' {
+			lit += string(f[i])
+			continue
+		}
+		if i+1 < len(f) && f[i+1] == '%' {
+			lit += "%"
+			i++
+			continue
+		}
+		// skip flags/width
+		j := i + 1
+		for j < len(f) && strings.ContainsRune("+-# 0123456789.", rune(f[j])) {
+			j++
+		}
+		if j >= len(f) || ai >= len(elems) {
+			return nil, false
+		}
+		if lit != "" {
+			out = append(out, Atom{Kind: AtomConst, Text: lit})
+			lit = ""
+		}
+		v := elems[ai].val
+		ai++
+		if mi, isMI := v.(*ssa.MakeInterface); isMI {
+			v = mi.X
+		}
+		if b, isB := v.Type().Underlying().(*types.Basic); isB && b.Kind() == types.String {
+			as, err := s.Shape(v)
+			if err != nil {
+				return nil, false
+			}
+			out = append(out, as...)
+		} else {
+			out = append(out, Atom{Kind: AtomCall, Text: "fmt%" + string(f[j]), Arg: descValue(v), Val: v})
+		}
+		i = j
+	}
+	if lit != "" {
+		out = append(out, Atom{Kind: AtomConst, Text: lit})
+	}
+	return mergeConsts(out), true
 }
